@@ -124,8 +124,9 @@ PROPS.update({
         "of the occurrence. The checkers are evaluated by extracted code on the dump of every automaton the real builder produces; the modelled "
         "traversal is compared with ManyMatcher::find_matches as exact sequences. Port graphs: cert_complete with proved entailment / refutation rules "
         "(c02_portgraph_partial, abstract semantics) is evaluated on every dump; the step to the concrete traversal is false in general (known classes D5, D6, D10) "
-        "and proved where none of them interferes: c02_portgraph_run_reports_embeddings_of_good_patterns (pattern passing pg_good_pattern, automaton over the pattern's own keys - "
-        "aut_keys_in, evaluated on the dump of every automaton compiled from a single pattern); otherwise decided by correspondence with the "
+        "and proved where none of them interferes: c02_portgraph_run_complete_on_single_root_pattern_sets (any set of patterns none of which needs a second index root - "
+        "aut_single_root / match_keys_in, evaluated as pg-srset on the dump of every automaton compiled from single-root patterns - and a pattern of the set passing "
+        "pg_good_pattern: every embedding is reported by the run; special case c02_portgraph_run_reports_embeddings_of_good_patterns); otherwise decided by correspondence with the "
         "modelled traversal and the embedding oracle, with the known host-side classes.",
         "Coq proof of run completeness from verified certificates (trace-closure of the BFS + AND-OR completeness certificate) evaluated on the real "
         "automaton + differential correspondence + occurrence oracle",
